@@ -44,6 +44,12 @@ def c12 (op : String) (args : List Sexp) : Verdict :=
     match impl with
     | .list (.atom "samples" :: _) => .ok "trivial/sample"
     | _ => .bad s!"sample: {impl}"
+  | "regstorm", [g, n, impl] =>
+    match impl with
+    | .list (.atom "ok" :: _) => .ok s!"regstorm/{g}x{n}"
+    | .list (.atom "mismatch" :: _) => .oracle s!"registrations made concurrently were lost (a builder registered by a call that had returned was not found): {impl}"
+    | .list [.atom "crashed"] => .oracle "the process died during concurrent registration"
+    | other => .oracle s!"concurrent registration: {other}"
   | "mix", seed :: g :: n :: rest =>
     match asNat seed, asNat g, asNat n, rest.getLast? with
     | some _, some g, some n, some impl =>
